@@ -139,7 +139,7 @@ Proof. rewrite wf_wfb, wfb_dupfree. reflexivity. Qed.
 (* ---- 3. the domain ---- *)
 Lemma num_okb_inv t : num_okb t = true ->
   (exists z, num_to_json t = Some (JInt z) /\ in_int64 z = true /\ format_int z = t) \/
-  (exists f, num_to_json t = Some (JFloat f) /\ float_okb f = true /\ float_marshal cfg_fixed f = t).
+  (exists f, num_to_json t = Some (JFloat f) /\ float_exactb f = true /\ float_marshal cfg_fixed f = t).
 Proof.
   unfold num_okb. destruct (num_to_json t) as [v|] eqn:E; [|discriminate].
   destruct v; try discriminate; intro H.
@@ -190,10 +190,10 @@ Qed.
 Lemma jgood_norm v : jgood v = true -> jgood (norm v) = true.
 Proof. intro H. unfold norm. apply jgood_strip, jgood_sortrec, H. Qed.
 
-Lemma jgood_readable v : jgood v = true -> readable v.
+Lemma jgood_readable v : jgood v = true -> readable_exact v.
 Proof.
-  induction v using jv_ind2; cbn [jgood readable]; auto.
-  - apply float_okb_sound.
+  induction v using jv_ind2; cbn [jgood readable_exact]; auto.
+  - apply float_exactb_sound.
   - intro HG. rewrite forallb_forall in HG. apply all_list_Forall. rewrite Forall_forall in *. auto.
   - intro HG. rewrite forallb_forall in HG. apply all_list_Forall. rewrite Forall_forall in *.
     intros x Hx. specialize (HG x Hx). apply andb_true_iff in HG. destruct HG as [_ H2]. auto.
@@ -307,9 +307,9 @@ Proof.
   intros D1 D2 E.
   pose proof (real_canon_prints_norm _ D1) as P1. pose proof (real_canon_prints_norm _ D2) as P2.
   rewrite <- E in P2.
-  assert (R1 : readable (norm (to_json d1))) by (apply jgood_readable, jgood_norm, in_domain_jgood, D1).
-  assert (R2 : readable (norm (to_json d2))) by (apply jgood_readable, jgood_norm, in_domain_jgood, D2).
-  pose proof (parse_print _ _ P1 R1) as Q1. pose proof (parse_print _ _ P2 R2) as Q2.
+  assert (R1 : readable_exact (norm (to_json d1))) by (apply jgood_readable, jgood_norm, in_domain_jgood, D1).
+  assert (R2 : readable_exact (norm (to_json d2))) by (apply jgood_readable, jgood_norm, in_domain_jgood, D2).
+  pose proof (parse_print_exact _ _ P1 R1) as Q1. pose proof (parse_print_exact _ _ P2 R2) as Q2.
   rewrite Q1 in Q2. injection Q2 as Q. rewrite !strip_norm, <- !to_json_norm in Q.
   apply to_json_inj; auto using in_domain_norm.
 Qed.
@@ -328,7 +328,7 @@ Proof. intros HD P. rewrite canon_spec, P. cbn [bind]. apply real_canon_ok. exac
 Lemma real_canon_parses_back d : in_domain d = true -> parse (real_canon d) = Ok (to_json (C.norm d)).
 Proof.
   intro HD. rewrite to_json_norm.
-  rewrite (parse_print _ _ (real_canon_prints_norm _ HD)) by (apply jgood_readable, jgood_norm, in_domain_jgood, HD).
+  rewrite (parse_print_exact _ _ (real_canon_prints_norm _ HD)) by (apply jgood_readable, jgood_norm, in_domain_jgood, HD).
   rewrite strip_norm. reflexivity.
 Qed.
 
@@ -339,9 +339,9 @@ Proof.
   rewrite (parse_int64_format z R). reflexivity.
 Qed.
 
-Lemma num_to_json_float f : float_okb f = true -> num_to_json (float_marshal cfg_fixed f) = Some (JFloat f).
+Lemma num_to_json_float f : float_exactb f = true -> num_to_json (float_marshal cfg_fixed f) = Some (JFloat f).
 Proof.
-  intro R. destruct (float_okb_sound f R) as [Sh Pf]. destruct (float_shape_scan _ Sh) as [S [Pi _]].
+  intro R. destruct (float_exactb_sound f R) as [Sh Pf]. destruct (float_shape_scan _ Sh) as [S [Pi _]].
   unfold num_to_json. specialize (S [] I). rewrite app_nil_r in S. rewrite S, Pi, Pf. reflexivity.
 Qed.
 
